@@ -1,12 +1,17 @@
 // Interface ingress, IPv6 over raw-IP medium: C11 (addressing / no errors to multicast), C10 (reply source), C03.
 // Spliced into src/iface/interface/mod.rs (child of iface::interface).
-#[cfg(all(feature = "proto-ipv6", feature = "medium-ip", feature = "socket-tcp", feature = "socket-udp", feature = "socket-icmp"))]
+#[cfg(all(feature = "proto-ipv6", feature = "medium-ip"))]
 #[allow(dead_code, unused_imports, unused_variables, unused_mut)]
 mod v_iface_ingress6 {
     use super::*;
     use crate::iface::{SocketHandle, SocketStorage};
     use crate::phy::ChecksumCapabilities;
-    use crate::socket::{icmp, tcp, udp};
+    #[cfg(feature = "socket-icmp")]
+    use crate::socket::icmp;
+    #[cfg(feature = "socket-tcp")]
+    use crate::socket::tcp;
+    #[cfg(feature = "socket-udp")]
+    use crate::socket::udp;
     use crate::verif_common::*;
     use crate::verif_dev::{CapDev, CapTx, TxState};
 
@@ -152,10 +157,12 @@ mod v_iface_ingress6 {
         };
     }
 
+    #[cfg(feature = "socket-tcp")]
     fn tcp_untouched(sockets: &SocketSet, th: SocketHandle) -> bool {
         let t = sockets.get::<tcp::Socket>(th);
         t.state() == tcp::State::Listen && t.remote_endpoint().is_none() && t.local_endpoint().is_none()
     }
+    #[cfg(feature = "socket-udp")]
     fn udp_untouched(sockets: &SocketSet, uh: SocketHandle) -> bool {
         !sockets.get::<udp::Socket>(uh).can_recv()
     }
@@ -166,6 +173,7 @@ mod v_iface_ingress6 {
             _ => [0; 16],
         }
     }
+    #[cfg(feature = "socket-tcp")]
     fn reply_is_tcp_rst(p: &Packet) -> bool {
         match p.payload() {
             IpPayload::Tcp(t) => t.control == TcpControl::Rst,
@@ -182,6 +190,7 @@ mod v_iface_ingress6 {
         }
     }
 
+    #[cfg(feature = "socket-tcp")]
     fn tcp_case(finding_region: bool) {
         env6_tcp!(iface, sockets, th);
         let src = any_src();
@@ -229,19 +238,22 @@ mod v_iface_ingress6 {
         kani::cover!(reply.is_none() && dst == ALL_NODES && dport == TCP_PORT && flags == 0x02, "SYN to all-nodes multicast");
     }
 
-    // @harness props=C11,C10 cfg=KI6 tier=q to=1500 mem=12 unwind=20 opts=nomem covers=3 funcs=InterfaceInner::process_ip;InterfaceInner::process_ipv6;InterfaceInner::process_tcp;InterfaceInner::has_multicast_group;InterfaceInner::has_solicited_node;tcp::Socket::accepts bounds=raw-IP_medium;_own_fe80::1_and_2001:db8::1;_source_with_4_and_destination_with_9_symbolic_octets_(all_address_classes);_any_ports,_flags
+    // @harness props=C11,C10 cfg=KI6t tier=q to=1500 mem=12 unwind=20 opts=nomem covers=3 funcs=InterfaceInner::process_ip;InterfaceInner::process_ipv6;InterfaceInner::process_tcp;InterfaceInner::has_multicast_group;InterfaceInner::has_solicited_node;tcp::Socket::accepts bounds=raw-IP_medium;_own_fe80::1_and_2001:db8::1;_source_with_4_and_destination_with_9_symbolic_octets_(all_address_classes);_any_ports,_flags
+    #[cfg(feature = "socket-tcp")]
     #[kani::proof]
     pub(crate) fn ipv6_addr_tcp() {
         tcp_case(false);
     }
 
-    // @harness props=C11 kind=finding cfg=KI6 tier=q to=1500 mem=12 unwind=20 opts=nomem funcs=InterfaceInner::process_ipv6;InterfaceInner::process_tcp bounds=destination_::1_(not_configured),_any_source,_ports,_flags
+    // @harness props=C11 kind=finding cfg=KI6t tier=q to=1500 mem=12 unwind=20 opts=nomem funcs=InterfaceInner::process_ipv6;InterfaceInner::process_tcp bounds=destination_::1_(not_configured),_any_source,_ports,_flags
+    #[cfg(feature = "socket-tcp")]
     #[kani::proof]
     pub(crate) fn finding_ipv6_loopback_tcp() {
         tcp_case(true);
     }
 
     // @harness props=C11,C10,C09 cfg=KI6 tier=q to=1500 mem=12 unwind=20 opts=nomem covers=3 funcs=InterfaceInner::process_ip;InterfaceInner::process_ipv6;InterfaceInner::process_udp;InterfaceInner::icmpv6_reply;udp::Socket::accepts;udp::Socket::process bounds=raw-IP_medium;_own_fe80::1_and_2001:db8::1;_any_128-bit_source_and_destination;_any_ports;_4_payload_bytes
+    #[cfg(feature = "socket-udp")]
     #[kani::proof]
     pub(crate) fn ipv6_addr_udp() {
         env6_udp!(iface, sockets, uh);
@@ -287,7 +299,8 @@ mod v_iface_ingress6 {
         kani::cover!(reply.is_some() && own, "port unreachable sent");
     }
 
-    // @harness props=C11,C10,C03 cfg=KI6 tier=q to=1500 mem=12 unwind=20 opts=nomem covers=2 funcs=InterfaceInner::process_ip;InterfaceInner::process_ipv6;InterfaceInner::process_icmpv6;InterfaceInner::icmpv6_reply bounds=raw-IP_medium;_own_fe80::1_and_2001:db8::1;_source_with_4_and_destination_with_9_symbolic_octets_(all_address_classes);_ICMPv6_echo_request/reply_or_error_types_with_4_data_bytes
+    // @harness props=C11,C10,C03 cfg=KI6i tier=q to=1500 mem=12 unwind=20 opts=nomem covers=2 funcs=InterfaceInner::process_ip;InterfaceInner::process_ipv6;InterfaceInner::process_icmpv6;InterfaceInner::icmpv6_reply bounds=raw-IP_medium;_own_fe80::1_and_2001:db8::1;_source_with_4_and_destination_with_9_symbolic_octets_(all_address_classes);_ICMPv6_echo_request/reply_or_error_types_with_4_data_bytes
+    #[cfg(feature = "socket-icmp")]
     #[kani::proof]
     pub(crate) fn ipv6_addr_icmp() {
         env6_icmp!(iface, sockets, ih);
@@ -328,6 +341,7 @@ mod v_iface_ingress6 {
     // unknown next header: ParamProblem only for unicast destinations (RFC 4443 2.4 e).
     // Known finding F-C11-paramproblem-multicast: the reply IS sent for multicast destinations (and /repo's own
     // test expects it); the main harness excludes multicast destinations, the finding harness checks inside.
+    #[cfg(feature = "socket-udp")]
     fn unknown_nxt_hdr_case(finding_region: bool) {
         env6_udp!(iface, sockets, uh);
         let src: [u8; 16] = kani::any();
@@ -354,12 +368,14 @@ mod v_iface_ingress6 {
     }
 
     // @harness props=C11,C10 cfg=KI6 tier=q to=1500 mem=12 unwind=20 opts=nomem covers=2 funcs=InterfaceInner::process_ipv6;InterfaceInner::process_nxt_hdr;InterfaceInner::icmpv6_reply bounds=raw-IP_medium;_unknown_next_header_value;_any_source;_any_non-multicast_destination
+    #[cfg(feature = "socket-udp")]
     #[kani::proof]
     pub(crate) fn ipv6_unknown_nxt_hdr() {
         unknown_nxt_hdr_case(false);
     }
 
     // @harness props=C11 kind=finding cfg=KI6 tier=q to=1500 mem=12 unwind=20 opts=nomem funcs=InterfaceInner::process_ipv6;InterfaceInner::process_nxt_hdr;InterfaceInner::icmpv6_reply bounds=raw-IP_medium;_unknown_next_header_value;_any_source;_any_multicast_destination
+    #[cfg(feature = "socket-udp")]
     #[kani::proof]
     pub(crate) fn finding_ipv6_unknown_nxt_hdr_multicast() {
         unknown_nxt_hdr_case(true);
@@ -367,6 +383,7 @@ mod v_iface_ingress6 {
 
     // C03: arbitrary bytes as an IPv6 packet (incl. hop-by-hop options) never panic
     // @harness props=C03 cfg=KI6 tier=q to=1800 mem=8 unwind=24 covers=2 funcs=InterfaceInner::process_ip;InterfaceInner::process_ipv6;InterfaceInner::process_hopbyhop;InterfaceInner::process_icmpv6;InterfaceInner::process_ndisc;InterfaceInner::process_udp;InterfaceInner::process_tcp;wire::Ipv6Repr::parse;wire::Icmpv6Repr::parse;wire::NdiscRepr::parse bounds=raw-IP_medium;_IPv6_header_with_any_next_header,_hop_limit,_source;_destination_=_own_address;_24_arbitrary_payload_bytes,_payload_length_0..=24
+    #[cfg(feature = "socket-tcp")]
     #[kani::proof]
     pub(crate) fn ipv6_bytes_free() {
         env6_tcp!(iface, sockets, th);
@@ -386,6 +403,7 @@ mod v_iface_ingress6 {
     }
 
     // @harness props=C11 kind=mustfail cfg=KI6 tier=q to=900 mem=8 unwind=20 opts=nomem
+    #[cfg(feature = "socket-tcp")]
     #[kani::proof]
     pub(crate) fn iface_ingress6_must_fail() {
         env6_tcp!(iface, sockets, th);
